@@ -40,6 +40,7 @@ func resultDigest(res *store.ExecuteResult) string {
 type roundRec struct {
 	blocks []*types.Block
 	submit int
+	kind   string
 }
 
 // roundBlocks builds one (or two competing) next block(s): a native transfer, a contract storage
@@ -97,11 +98,11 @@ func (r *run) betweenSteps() []step {
 // twoPhase runs rounds of ExecuteBlock(s); pre-executions; SubmitBlock on the main ledger, checking
 // after every pre-execution that the pending results (and everything else) are unchanged, then
 // replays the same blocks on the twin with no pre-execution in between and compares the ledgers.
-// With only != nil a single round with that one step is run (replay).
+// With only != nil a single round with that one step is run (replay). The submitted rounds and the
+// ledger digest after each are recorded in r.rounds / r.mainSnaps for the control comparison (later.go).
 func (r *run) twoPhase(twinDir string, only *replayIn) {
 	x, c := r.x, r.c
 	st := c.k.Store()
-	var recs []roundRec
 	rounds := 2
 	if only != nil {
 		rounds = 1
@@ -184,44 +185,9 @@ rounds:
 			break rounds
 		}
 		c.ethNonce[c.ethAddrs[0]]++
-		recs = append(recs, roundRec{blocks: blocks, submit: sub})
+		r.rounds = append(r.rounds, roundRec{blocks: blocks, submit: sub, kind: fmt.Sprintf("ExecuteBlock of %d block(s); pre-executions; SubmitBlock", len(blocks))})
+		r.mainSnaps = append(r.mainSnaps, c.takeSnap(nil))
 		x.Count(fmt.Sprintf("between:round-competing-%v", competing))
 	}
-	mainSnap := c.takeSnap(nil)
-	c.k.Close()
-	// the twin: same blocks, executed and submitted with nothing in between
-	twin, err := c.k.OpenAt(twinDir)
-	if err != nil {
-		x.Note("twin open failed: " + err.Error())
-		return
-	}
-	tst := twin.Store()
-	for _, rec := range recs {
-		var results []store.ExecuteResult
-		for _, b := range rec.blocks {
-			res, err := tst.ExecuteBlock(b)
-			if err != nil {
-				x.Note("twin ExecuteBlock failed: " + err.Error())
-			}
-			results = append(results, res)
-		}
-		if err := tst.SubmitBlock(rec.blocks[rec.submit], nil, results[rec.submit]); err != nil {
-			x.Note("twin SubmitBlock failed: " + err.Error())
-		}
-	}
-	tc := *c
-	tc.k = twin
-	twinSnap := tc.takeSnap(nil)
-	twin.Close()
-	delete(mainSnap, "file:wal-sizes") // the main ledger was reopened once more than the twin: its logs rotated differently
-	delete(twinSnap, "file:wal-sizes")
-	in := map[string]interface{}{"chain": r.idx, "phase": "ExecuteBlock; pre-executions; SubmitBlock, against a twin without pre-executions"}
-	if only != nil {
-		in = map[string]interface{}{"extra": only.Extra, "step": only.Step, "between": only.Between}
-	}
-	for _, comp := range mainSnap.diff(twinSnap) {
-		x.Fail("preexec-changed:twin:"+comp, "after SubmitBlock the ledger equals a twin that executed and submitted the same blocks with no pre-execution in between",
-			in, mainSnap[comp], twinSnap[comp])
-	}
-	x.Count("chain:twin-compared")
+	_ = twinDir
 }
